@@ -476,9 +476,93 @@ func applyExtCode(doc *JV, i, j int64) bool {
 	sl := slots[int(i)%len(slots)]
 	codes := defs[sl.key]
 	c := codes[int(j)%len(codes)]
+	if j%6 == 5 {
+		c = "" // the entry is there but was left empty
+	}
 	if sl.obj.Get(sl.key).Str() == c {
 		return false
 	}
 	sl.obj.Set(sl.key, JStr(c))
+	return true
+}
+
+// ---------------------------------------------------------------------------
+// tax categories a regime publishes
+
+type pubCatRate struct {
+	Cat      string
+	Retained bool
+	Rate     string
+}
+
+var (
+	catMu    sync.Mutex
+	catCache = map[string][]pubCatRate{}
+)
+
+func regimeCategories(regime string) []pubCatRate {
+	catMu.Lock()
+	defer catMu.Unlock()
+	if c, ok := catCache[regime]; ok {
+		return c
+	}
+	var d struct {
+		Categories []struct {
+			Code     string `json:"code"`
+			Retained bool   `json:"retained"`
+			Rates    []struct {
+				Key string `json:"key"`
+			} `json:"rates"`
+		} `json:"categories"`
+	}
+	var out []pubCatRate
+	if b, err := os.ReadFile(filepath.Join(pubRepo, "data/regimes", strings.ToLower(regime)+".json")); err == nil && json.Unmarshal(b, &d) == nil {
+		for _, c := range d.Categories {
+			for _, r := range c.Rates {
+				out = append(out, pubCatRate{c.Code, c.Retained, r.Key})
+			}
+		}
+	}
+	catCache[regime] = out
+	return out
+}
+
+// applyAddCategory puts a further tax combo on one line: a category (and one of its rate keys) the
+// regime publishes and the line does not carry yet — a retained tax next to VAT, a second levy.
+func applyAddCategory(doc *JV, i, j int64) bool {
+	lines := doc.Get("lines")
+	if lines == nil || lines.K != 'a' || len(lines.A) == 0 {
+		return false
+	}
+	cats := regimeCategories(docRegime(doc))
+	if len(cats) == 0 {
+		return false
+	}
+	l := lines.A[int(i)%len(lines.A)]
+	if l == nil || l.K != 'o' {
+		return false
+	}
+	ts := l.Get("taxes")
+	if ts == nil || ts.K != 'a' {
+		ts = &JV{K: 'a'}
+		l.Set("taxes", ts)
+	}
+	have := map[string]bool{}
+	for _, t := range ts.A {
+		if t != nil && t.K == 'o' {
+			have[t.Get("cat").Str()] = true
+		}
+	}
+	var cands []pubCatRate
+	for _, c := range cats {
+		if !have[c.Cat] {
+			cands = append(cands, c)
+		}
+	}
+	if len(cands) == 0 {
+		return false
+	}
+	c := cands[int(j)%len(cands)]
+	ts.A = append(ts.A, &JV{K: 'o', M: []JM{{"cat", JStr(c.Cat)}, {"rate", JStr(c.Rate)}}})
 	return true
 }
